@@ -388,13 +388,33 @@ def main(argv=None):
             v = next(v for v in new if v["signature"] == s)
             c2 = Collector()
             c2._item = v["item"]
-            try:
-                mod.work(v["item"], c2)
-            except Exception:
-                if s not in c2.viol_counts:
+            if getattr(mod, "RECYCLE_AFTER", None) == 1:
+                # the check runs every item in a fresh process: so does the replay (an earlier replay in this process would
+                # otherwise be process history for the next one)
+                import multiprocessing as mp
+
+                rp = mp.get_context("spawn").Pool(1, initializer=_worker_init, initargs=(mod.__name__, getattr(mod, "USES_JAX", False)), maxtasksperchild=1)
+                try:
+                    c2 = rp.apply_async(_worker_run, (v["item"],)).get(timeout=3600)
+                except Exception:
                     print("HARNESS-ERROR: replay of violating item raised")
                     traceback.print_exc()
                     return 2
+                finally:
+                    for p_ in list(getattr(rp, "_pool", [])):
+                        try:
+                            p_.kill()
+                        except Exception:  # noqa: BLE001
+                            pass
+                    _HUNG_TEARDOWN.append(True)
+            else:
+                try:
+                    mod.work(v["item"], c2)
+                except Exception:
+                    if s not in c2.viol_counts:
+                        print("HARNESS-ERROR: replay of violating item raised")
+                        traceback.print_exc()
+                        return 2
             if s not in c2.viol_counts and getattr(mod, "REPLAY_MATCH", "signature") == "entry":
                 # checks whose subject IS nondeterminism (C09): the failure kind is an attribution that may
                 # legitimately differ between two executions; the replay must reproduce a violation at the
